@@ -228,6 +228,15 @@ def _cex_p(ctx, res, task, mv, xv, problems, neg):
     listed = {key: bool(z3.is_true(model.eval(v, model_completion=True))) for key, v in mv.items()}
     fls = {f: lib.to_float(core.zval(model, v)) for f, v in xv.items()}
     rp = concrete_problems(task, listed, fls)
+    if not rp.get("disagree"):
+        # number printing lies outside the symbolic model (values travel as tokens): before the counterexample is counted as not
+        # reproducing it is retried with values that need many significant digits; what reproduces is reported with those values
+        for shift in c09.AWKWARD:
+            fls2 = {f: v + shift for f, v in fls.items()}
+            rp2 = concrete_problems(task, listed, fls2)
+            if rp2.get("disagree"):
+                fls, rp = fls2, rp2
+                break
     if rp.get("disagree"):
         res["outcome"] = "violation"
         res["cex"] = {"what": "; ".join(problems[:3]), "listed": [[i, a] for (i, a), t in listed.items() if t], "fluents": fls,
